@@ -983,7 +983,16 @@ class SSeq:
         raise Unsupported("str.format on symbolic template")
 
     def zfill(self, w):
-        raise Unsupported("zfill")
+        if not isinstance(w, int):
+            w = ctx().concretize(zi(w))
+        es = self.celems()
+        pad = w - len(es)
+        if pad <= 0:
+            return self.same(es, len(es))
+        zero = bvv(48, self.w)
+        if es and ctx().decide(z3.Or(es[0] == 43, es[0] == 45)):
+            return self.same([es[0]] + [zero] * pad + es[1:], w)
+        return self.same([zero] * pad + es, w)
 
     def isidentifier(self):
         raise Unsupported("isidentifier")
